@@ -27,10 +27,10 @@ Fixpoint pylist_ltb (a b : list T) : bool :=
   | _ :: _, [] => false
   | x :: a', y :: b' => if oeqb K x y then pylist_ltb a' b' else oltb K x y
   end.
-(* sorted(points) for a list of points (lists of floats), TRUSTED: an insertion sort by list <.  Python's sort is stable;
-   this one places a point after the points it ties with (neither < the other) although it is inserted from the back -
-   for a total order, ties are equal points, so the results are indistinguishable.  The hand-written model
-   (Geom2D.sort_pts) uses the same algorithm. *)
+(* sorted(points) for a list of points (lists of floats), TRUSTED: an insertion sort by list <, the points inserted from the last to
+   the first, each before the first point it is < of.  Python's sort is stable; this one is not (a point ends up after the later
+   points it ties with, i.e. that are neither < nor > it).  For a total order a tie means equal points, so the results cannot be
+   told apart.  The hand-written model (Geom2D.sort_pts) uses the same algorithm. *)
 Fixpoint py_insert_pt (p : list T) (l : list (list T)) : list (list T) :=
   match l with
   | [] => [p]
@@ -52,3 +52,21 @@ Definition oratio {T} (K : ops T) (q : ratio) : T := odiv K (olitz K (Qnum q)) (
 
 (* ---- list slots that hold None or a float (type optfloat = option T): arithmetic on None raises TypeError ---- *)
 Definition py_unopt {A} (o : option A) : gres A := match o with Some x => GOk x | None => GErr TypeError end.
+
+(* ---- the variable of `for v in range(lo, hi)` read AFTER the loop ----
+   After a non-empty range it is the last element hi - 1.  After an empty range Python uses an earlier binding of the name
+   (possibly from a previous pass of an enclosing loop) or raises UnboundLocalError; neither is modelled: the generated code
+   GIVES UP (GErr OutOfFuel, the one outcome that no handler of the generated code can see).  So a result other than
+   GErr OutOfFuel is still what Python computes; the tie theorems assume the range is not empty. *)
+Definition range_last (lo hi : Z) : gres Z := if (lo <? hi)%Z then GOk (hi - 1)%Z else GErr OutOfFuel.
+
+(* sorted(set(l)) for a list of floats: the distinct values (==) in ascending order; insertion into a strictly increasing list *)
+Section SortUniq.
+Context {T : Type} (K : ops T).
+Fixpoint py_ins_uniq (x : T) (l : list T) : list T :=
+  match l with
+  | [] => [x]
+  | y :: r => if oeqb K x y then l else if oltb K x y then x :: l else y :: py_ins_uniq x r
+  end.
+Definition py_sorted_uniq (l : list T) : list T := fold_left (fun acc x => py_ins_uniq x acc) l [].
+End SortUniq.
